@@ -73,8 +73,11 @@ def attr_reads(repo, attrs, subdir="norminette"):
         for n in ast.walk(tree):
             if isinstance(n, ast.Attribute) and n.attr in attrs and isinstance(n.ctx, ast.Load):
                 cn = consumer(n, par)
+                # `x.value or ''` only passes the value on: what consumes it is the consumer of the BoolOp
+                outer = consumer(cn, par) if isinstance(cn, ast.BoolOp) and cn in par else None
                 out.append({"file": rel, "function": enclosing_function(n, par), "attr": n.attr,
                             "base": ast.unparse(n.value), "consumer": ast.unparse(cn), "node": n, "consumer_node": cn,
+                            "outer_consumer": ast.unparse(outer) if outer is not None else None, "outer_node": outer,
                             "stmt": ast.unparse(statement_of(n, par))[:200]})
     return out
 
